@@ -163,6 +163,11 @@ def _b64(part, as_str):
         return None
 
 
+def _lv(*xs):
+    """the length:value framing of the MAC input (own rendering, not the library's)"""
+    return "".join("%d:%s" % (len(x), x) for x in xs)
+
+
 def tables(c, cookie):
     mode = c["mode"]
     parts = cookie.split("|")
@@ -176,9 +181,9 @@ def tables(c, cookie):
     msgs = set()
     for g in gen:
         pl = "::".join([g["v"], g["typ"]])
-        msgs.add(pl + g["ts"])
+        msgs.add(_lv(pl, g["ts"]))
     if len(parts) == 3:
-        msgs.add(parts[1] + parts[0])
+        msgs.add(_lv(parts[1], parts[0]))
     plains = []
     if len(parts) == 4 and mode in ("signedEnc", "encOnly"):
         try:
@@ -199,7 +204,7 @@ def tables(c, cookie):
     for pt in plains:
         for g in gen:
             pl = "::".join([g["v"], g["typ"]])
-            msgs.add(pl + g["ts"])
+            msgs.add(_lv(pl, g["ts"]))
         # last lv field: take text after the last ':' as candidate b64 mac
         tail = pt.rsplit(":", 1)[-1]
         d = _b64(tail, True)
